@@ -160,10 +160,11 @@ func spdyFieldStore(in ssa.Instruction, field *types.Var) (*ssa.Store, bool) {
 	return st, true
 }
 
-// spdyEdgeGuarded: every way of entering b establishes a guard accepted by
-// match (see core.AllEdgesGuarded).
+// spdyEdgeGuarded: every way of entering b establishes a condition that
+// implies a guard accepted by match (see core.AllEdgesGuarded; conditions are
+// looked through as described at spdyImplied: named booleans, assigned && / ||).
 func spdyEdgeGuarded(b *ssa.BasicBlock, match func(g core.Guard) bool) bool {
-	return core.AllEdgesGuarded(b, match)
+	return core.AllEdgesGuarded(b, spdyLift(match))
 }
 
 // spdySuccessReturn: the error result (last result) of r is nil: the nil
@@ -177,7 +178,7 @@ func spdySuccessReturn(r *ssa.Return) bool {
 	if spdyIsNil(e) {
 		return true
 	}
-	return core.HasGuard(r.Block(), func(g core.Guard) bool {
+	return spdyHasGuard(r.Block(), func(g core.Guard) bool {
 		c, ok := spdyNorm(g.Cond, g.Pol, func(v ssa.Value) bool { return v == e })
 		return ok && c.Op == token.EQL && spdyIsNil(c.Other)
 	})
@@ -355,26 +356,28 @@ func spdyBoundStates(fn *ssa.Function, a *ssa.Alloc, capMax int64) map[*ssa.UnOp
 		}
 		return s
 	}
-	refine := func(cond ssa.Value, pol bool, s uint32) uint32 {
-		c, ok := spdyNorm(cond, pol, isLoad)
+	// the branch condition (or what it implies: named booleans, `a || b` as a
+	// value, the cases of a tagless switch) bounds the local from above
+	bounds := func(g core.Guard) bool {
+		c, ok := spdyNorm(g.Cond, g.Pol, isLoad)
 		if !ok {
-			return s
+			return false
 		}
 		switch c.Op {
 		case token.LSS, token.LEQ, token.EQL:
 		default:
-			return s
+			return false
 		}
 		if k, ok := spdyConstInt(c.Other); ok {
-			if k >= 0 && k <= capMax {
-				return spdyBounded
-			}
-			return s
+			return k >= 0 && k <= capMax
 		}
-		if dependsOnA(c.Other) {
-			return s
+		return !dependsOnA(c.Other)
+	}
+	refine := func(cond ssa.Value, pol bool, s uint32) uint32 {
+		if spdyImplied(spdyMkGuard(cond, pol), bounds, false) {
+			return spdyBounded
 		}
-		return spdyBounded
+		return s
 	}
 	core.Typestate(fn, spdyBounded, step, refine)
 	return at
